@@ -1194,7 +1194,9 @@ class ImmKinds:
             self.simple([3, 0, 1, "max", "max+1", "max+2", -1], lambda v, c: 0 <= v <= self.min_esize(c) - 1, resolve=res)
             return
         if nm == "fimm":
-            self.simple([1.5, 1.0, -1.0, 0.125, 31.0, -31.0, 1.9375, 0.1328125, 0.0, 0.1, 32.0, 0.0625],
+            # not encodable: one fraction bit below the 4 kept ones set (bits 47, 42, 33, 32 | 31, 16, 0 of the double)
+            self.simple([1.5, 1.0, -1.0, 0.125, 31.0, -31.0, 1.9375, 0.1328125, 0.0, 0.1, 32.0, 0.0625,
+                         1.0 + 2.0 ** -5, 1.0 + 2.0 ** -10, 2.0 + 2.0 ** -18, -(1.0 + 2.0 ** -20), 1.0 + 2.0 ** -21, 0.5 + 2.0 ** -37, 1.0 + 2.0 ** -52],
                         lambda v, c: is_fp8(v), fmt=lambda v, c: "#%r" % v)
             return
         if nm == "rotate":
